@@ -148,7 +148,8 @@ def random_obj(rng, kind):
     if kind == 'dfa':
         return G.random_dfa(rng, k, rng.choice(['a', 'ab', 'xy', 'a1', '']), names=Q)
     if kind == 'nfa':
-        return G.random_nfa(rng, k, rng.choice(['a', 'ab', 'ab', '']), rng.choice(['_', 'ε', 'e']), names=Q, peps=0.3)
+        e = rng.choice(['_', 'ε', 'e'])
+        return G.random_nfa(rng, k, rng.choice(['a', 'ab', 'ab', ''] + (['aε', 'ε'] if e != 'ε' else [])), e, names=Q, peps=0.3)
     if kind == 'pda':
         p = G.random_pda(rng, k, rng.choice(['a', 'ab', '']), rng.choice(['x', 'xy', '$x', '#@', '%x', '&*']), rng.choice(['_', 'ε']), ntrans=rng.randint(0, 6))
         m = dict(zip(p['Q'], Q))
@@ -159,7 +160,7 @@ def random_obj(rng, kind):
         return p
     blank = rng.choice(['_', '□'])
     sigma = rng.choice([['a'], ['a', 'b'], []])
-    gamma = sorted(set(sigma + [blank] + (['x'] if rng.random() < 0.5 else []) + (rng.choice([['%'], ['$', '%'], ['#'], ['~', '!']]) if rng.random() < 0.4 else [])))
+    gamma = sorted(set(sigma + [blank] + (['□'] if blank == '_' and rng.random() < 0.2 else []) + (['x'] if rng.random() < 0.5 else []) + (rng.choice([['%'], ['$', '%'], ['#'], ['~', '!']]) if rng.random() < 0.4 else [])))
     halt = rng.choice([['acc', 'rej'], ['accept', 'reject'], ['accept', 'rej'], ['acc', 'reject']])    # 'accept' / 'reject' are the documented default names
     halt = [h for h in halt]
     if any(h in Q for h in halt):
